@@ -26,10 +26,14 @@ def Validator.check : Validator → JVal → Except Err Unit
     | _ => .error .valueError
   | .jwk, v => ensure v.isDict .valueError
   | .unsupported, _ => .error .valueError
-  | .choices cs, v =>
+  | .choices cs true, v =>
     match v with
     | .arr xs => ensure (xs.all fun x => pyInList x (cs.map JVal.str)) .valueError
-    | x => ensure (pyInList x (cs.map JVal.str)) .valueError
+    | _ => .error .valueError
+  | .choices cs false, v =>
+    match v with
+    | .str s => ensure (cs.contains s) .valueError
+    | _ => .error .valueError
   | .custom _, _ => .ok ()                             -- unknown validator: not modelled (flagged by table theorems)
 
 /-- `iter(v)` for the shapes JSON can produce. -/
